@@ -233,7 +233,8 @@ class Run:
         self.shape.append(['repeat3', op['cfg'], None, classes[-1]])
         if 'C08' in self.props and len(cens) == 2 and classes == ['ok', 'ok', 'ok']:
             self.count('census:measured')
-            ((inst2, pay2), cont2), ((inst3, pay3), cont3) = cens
+            ((inst2, pay2, alive2), cont2), ((inst3, pay3, alive3), cont3) = cens
+            fresh_objs = sorted(set(k for i_, k in alive3.items() if i_ not in alive2))
             g_inst = census.growth(inst2, inst3)
             g_cont = census.growth(cont2, cont3)
             g_pay = census.growth(pay2, pay3)
@@ -243,6 +244,13 @@ class Run:
                     'abbr': op['abbr'], 'cfg': op['cfg'],
                     'containers held by long-lived library objects grew between 2nd and 3rd identical call': g_pay[:8]})
             self.extra['containers_tracked'] = len(cont3)
+            if fresh_objs and not g_inst:
+                # as many library objects as before, but not the same ones: the previous call's
+                # objects were replaced by this call's
+                self.census_dirty = True
+                self.violate('C08', 'leak', 'turnover:%s' % fresh_objs[0], i, {
+                    'abbr': op['abbr'], 'cfg': op['cfg'],
+                    'library objects created by the 3rd identical call that are still alive after it returned': fresh_objs[:8]})
             if g_cont:
                 self.census_dirty = True
                 name = g_cont[0][0]
